@@ -206,7 +206,12 @@ class Run:
         sim = self.sim
         if step.get('sched') is not None:
             from .sched import Scheduler
-            sched = Scheduler(step['sched'])
+            from . import REPO
+            spec = dict(step['sched'])
+            if spec.get('line'):
+                spec['line_prefix'] = os.path.join(
+                    os.path.realpath(REPO), 'file_builder') + os.sep
+            sched = Scheduler(spec)
         sim.reset(sandbox=sb, listdir_seed=self.cfg.get('listdir_seed'),
                   fault=fault, sched=sched,
                   log_io=self.opts.get('log_io', False))
@@ -267,6 +272,9 @@ class Run:
                 except BaseException:
                     pass
             sim.sched = None
+            if sched is not None and sched.line:
+                import sys
+                sys.settrace(None)
         out.sched = sched
         if sched is not None:
             st_ = self.stats.setdefault('schedules', {})
